@@ -204,6 +204,32 @@ def check_other_ellipsoid(case, ctx):
         ctx.le("enu2uvw(angle_unit='rad') = enu2uvw(degrees)", np.abs(out.value[0] - out.value[1]).max() / max(ne, 1e-300), 1e-14, route="ecef<->enu")
 
 
+def check_keyword_calls(case, ctx):
+    """f(a, b, c) and f(x=a, y=b, z=c) (names taken from the signature) are the same call; so are the two functions of an inverse pair called by keyword"""
+    import inspect
+    from ahrs.common import frames as f
+    p = case.p
+    e, n, u = (float(x) for x in p["enu"])
+    la0, lo0, h0, ang = float(p["lat0"]), float(p["lon0"]), float(p["h0"]), float(p["angle"])
+    X, Y, Z = (float(x) for x in p["P"])
+    la, lo = float(p["la"]), float(p["lo"])
+    specs = (("enu<->aer", f.enu2aer, (e, n, u)), ("enu<->aer", f.aer2enu, (ang, 33.0, 250.0)), ("enu<->dca", f.enu2dca, (e, n, u, ang)), ("enu<->dca", f.dca2enu, (e, n, u, ang)),
+             ("ecef<->enu", f.enu2ecef, (e, n, u, la0, lo0, h0)), ("ecef<->enu", f.ecef2enu, (X, Y, Z, la0, lo0, h0)), ("ecef<->enu", f.enu2uvw, (e, n, u, la0, lo0)),
+             ("ecef<->enu", f.ecef2enuv, (X, Y, Z, X - 1e3, Y + 5e2, Z - 2.5e2, la0, lo0)), ("geodetic<->ecef", f.geodetic2ecef, (la0, lo0, h0)),
+             ("geodetic<->ecef", f.ecef2geodetic, (X, Y, Z)), ("geodetic<->ecef", f.ecef2lla, (X, Y, Z)), ("geodetic2enu", f.geodetic2enu, (la0, lo0, h0, la0 * 0.9, lo0 * 0.9, h0 + 10.0)),
+             ("llf<->ecef", f.llf2ecef, (la, lo)), ("llf<->ecef", f.ecef2llf, (la, lo)))
+    for r, fn, args in specs:
+        names = list(inspect.signature(fn).parameters)[:len(args)]
+        out = call(lambda: (np.asarray(fn(*args), float), np.asarray(fn(**dict(zip(names, args))), float)))
+        if ctx.returned(out, clause="no-exception[keyword call]", route=r):
+            ctx.ok("a call by keyword (parameter names of the signature) returns what the positional call returns", out.value[0].shape == out.value[1].shape and np.array_equal(out.value[0], out.value[1], equal_nan=True),
+                   {"function": fn.__name__, "names": names}, route=r)
+    # the inverse pair by keyword: same latitude and longitude handed to both under their parameter names
+    out = call(lambda: (np.asarray(f.llf2ecef(lat=la, lon=lo), float), np.asarray(f.ecef2llf(lat=la, lon=lo), float)))
+    if ctx.returned(out, clause="no-exception[keyword call]", route="llf<->ecef"):
+        ctx.le("llf2ecef(lat=, lon=) and ecef2llf(lat=, lon=) are transposes of each other", np.abs(out.value[0] - out.value[1].T).max(), 4e-15, route="llf<->ecef")
+
+
 def check_int_scalars(case, ctx):
     """whole-number coordinates / angles typed as Python int or NumPy integers: the same numbers must give the same result as floats"""
     from ahrs.common import frames as f
@@ -240,3 +266,4 @@ def check(case, ctx):
     if case.route != "geodetic":
         check_int_scalars(case, ctx)
         check_other_ellipsoid(case, ctx)
+        check_keyword_calls(case, ctx)
